@@ -112,6 +112,8 @@ type HarnessRun struct {
 	nAssert    int
 	abstractMisuse []string
 	taintSites map[string]int
+	storeSites map[string]int // store instructions of the code under test examined for their target object
+	rawReads   int
 }
 
 type inputRec struct {
@@ -178,6 +180,13 @@ func (h *HarnessRun) addTaint(e *Engine, kind, pos, fn string) {
 	if h.stopOnTaint {
 		panic(abortHarness{"secret-dependent " + kind + " at " + pos})
 	}
+}
+
+func (h *HarnessRun) storeSite(k string) {
+	if h.storeSites == nil {
+		h.storeSites = map[string]int{}
+	}
+	h.storeSites[k]++
 }
 
 func (h *HarnessRun) taintSite(k string) {
